@@ -216,8 +216,95 @@ theorem deref_some {α : Type} [Inhabited α] (x : α) : GoLite.deref (some x) =
 /-- the model's answer, as the tie compares it -/
 def modelView (i : Input) (enf : Enf) : Bool × List Result := ((process i enf).accepted, (process i enf).results)
 
+/-! #### the model's stages with the plugin's verification capabilities as a LIST
+
+The model's `Input` says which verification capabilities the plugin declares by two flags (`capsOf`: at most one of
+each, trusted identity first). The Go code works on the LIST the plugin's metadata gives, in its order and with its
+repetitions. The stages below are the model's own (same text, `capsOf i` replaced by a parameter); `processEG_capsOf`
+shows they ARE the model on the lists the flags can express, and the tie is proved against them for EVERY list. -/
+def toVerifyG (caps : List String) (enf : Enf) : List String :=
+  caps.filter (fun c => !(revSkippedBy enf && c == capRevocation))
+
+def discoverG (i : Input) (caps : List String) (s : St) : Except St St :=
+  -- getVerificationPlugin: an existing but malformed attribute is an error
+  if i.pluginAttr == .notCritical || i.pluginAttr == .notString || i.pluginAttr == .blank then .error s
+  else if i.pluginAttr != .named then .ok s
+  -- min version attribute is only looked at when a plugin is named
+  else if i.minVerAttr == .notCritical || i.minVerAttr == .notString || i.minVerAttr == .blank ||
+      i.minVerAttr == .invalidSemver then .error s
+  else if i.pluginState == .managerNil then .error s
+  else
+  let s := { s with managerGets := s.managerGets + 1 }
+  if i.pluginState == .notInstalled then .error s
+  else if i.pluginState == .metadataError then .error s
+  else if i.pluginVersion == .invalidSemver then .error s
+  else if i.minVerAttr == .valid && i.pluginVersion == .tooOld then .error s
+  else if caps.isEmpty then .error s
+  else .ok s
+
+def authStageG (i : Input) (caps : List String) (enf : Enf) (s : St) : Except St St :=
+  let s := { s with storeLoads := s.storeLoads + 1 }
+  let auth : Result := { type := Facts.typeAuthenticity, action := enf.get Facts.typeAuthenticity,
+                         failed := i.trust != .found }
+  match s.push auth with
+  | .error s' => .error s'
+  | .ok s' =>
+    if !caps.contains capIdentity && !i.identityMatch then
+      let s'' := { s' with results := failAuthenticity s'.results }
+      if isCritical { auth with failed := true } then .error s'' else .ok s''
+    else .ok s'
+
+def revocationStageG (i : Input) (caps : List String) (enf : Enf) (s : St) : Except St St :=
+  if !revSkippedBy enf && !caps.contains capRevocation then
+    let s := { s with validatorCalls := s.validatorCalls + 1 }
+    s.push { type := Facts.typeRevocation, action := enf.get Facts.typeRevocation,
+             failed := i.revocation != .ok }
+  else .ok s
+
+def pluginStageG (i : Input) (caps : List String) (enf : Enf) (s : St) : Except St St :=
+  if i.pluginAttr == .named then
+    if (toVerifyG caps enf).isEmpty then
+      .ok s                            -- plugin named but never executed (known finding F-C02b)
+    else
+      let s := { s with pluginVerifyCaps := some (toVerifyG caps enf),
+                        pluginAttrsToProcess := some (sortKeys (i.extAttrs.map (·.key))) }
+      if i.pluginCallError then .error s
+      else processResponse i enf (toVerifyG caps enf) s
+  else
+    -- no plugin named: a critical extended attribute cannot be processed by anyone
+    if i.extAttrs.any (·.critical) then .error s else .ok s
+
+def processEG (i : Input) (enf : Enf) (caps : List String) : Except St St :=
+  discoverG i caps {} >>= authStageG i caps enf >>= expiryStage i enf >>= timestampStage i enf >>=
+    revocationStageG i caps enf >>= pluginStageG i caps enf
+
+/-- on the capability lists the model's flags express, the generalised stages are the model -/
+theorem processEG_capsOf (i : Input) (enf : Enf) : processEG i enf (capsOf i) = processE i enf := rfl
+
+def discOKG (i : Input) (caps : List String) : Bool :=
+  i.pluginAttr == .absent ||
+  (i.pluginAttr == .named && (i.minVerAttr == .absent || i.minVerAttr == .valid) &&
+    i.pluginState == .installed && i.pluginVersion != .invalidSemver &&
+    !(i.minVerAttr == .valid && i.pluginVersion == .tooOld) && !caps.isEmpty)
+
+theorem discoverG_spec (i : Input) (caps : List String) :
+    ∃ s, s.results = [] ∧ discoverG i caps {} = (if discOKG i caps then .ok s else .error s) := by
+  unfold discoverG discOKG
+  cases i.pluginAttr <;> cases i.minVerAttr <;> cases i.pluginState <;> cases i.pluginVersion <;>
+    cases caps.isEmpty <;> simp <;> exact ⟨_, rfl, rfl⟩
+
+/-- accepted or not, and the results, of a run of the model's stages -/
+def obsPair (e : Except St St) : Bool × List Result :=
+  match e with
+  | .ok s => (true, s.results)
+  | .error s => (false, s.results)
+
+theorem modelView_eq (i : Input) (enf : Enf) : modelView i enf = obsPair (processE i enf) := by
+  unfold modelView process obsPair
+  cases processE i enf <;> rfl
+
 set_option hygiene false in
-macro "leaf_simp" : tactic => `(tactic| simp_all [-List.any_eq_true, -List.any_eq_false, List.any_map, hcomp, contains_default, contains_nil, typeRev_eq, htE, htT, haS, actEnforce_eq, GoLite.setAt, GoLite.len, failAuthenticity, trust_ne1, trust_ne2, trust_ne3, rev_ne1, rev_ne2, authStage, expiryStage, timestampStage, revocationStage, pluginStage, toVerify, revSkippedBy, St.push, St.obs,
+macro "leaf_simp" : tactic => `(tactic| simp_all [-List.any_eq_true, -List.any_eq_false, List.any_map, hcomp, contains_default, contains_nil, typeRev_eq, htE, htT, haS, actEnforce_eq, GoLite.setAt, GoLite.len, failAuthenticity, trust_ne1, trust_ne2, trust_ne3, rev_ne1, rev_ne2, authStageG, expiryStage, timestampStage, revocationStageG, pluginStageG, toVerifyG, revSkippedBy, St.push, St.obs, obsPair,
         toInput, view, GoLite.idPure, isCriticalFailure_eq, resOf, trust_failed, trust_failed2, revocation_failed, typeAuth_eq, mapGet_eq_enfGet, Trace.rA, Trace.pcaps, Trace.toVerify])
 
 set_option maxHeartbeats 4000000 in
@@ -226,14 +313,12 @@ theorem source_processSignature_refines_model_partial (env : Env) (v : Verifier)
     (hc : Contracts env v) (ht : TraceOK env v a o0 ec rI t)
     (hI : env.verifyIntegrity a.sigBlob a.mt o0 = (some ec, rI)) (hIok : rI.Error = none) (hIty : isAuth rI = false)
     (hres : o0.VerificationResults = [])
-    (hcaps : NormalCaps (verifCaps t.md.1))
     (hnp : classifyPlugin ec.SignerInfo ≠ .named) :
     view (processSignature env v a.sigBlob a.mt a.pn a.tis a.tss a.sv a.pc o0) =
-      modelView (toInput env v ec.SignerInfo t) o0.VerificationLevel.Enforcement := by
+      obsPair (processEG (toInput env v ec.SignerInfo t) o0.VerificationLevel.Enforcement (t.pcaps ec.SignerInfo)) := by
   have hgp := source_getVerificationPlugin_refines_model ec.SignerInfo
   have hgm := source_getVerificationPluginMinVersion_refines_model env.isValidSemver ec.SignerInfo
-  have hcapsOf := capsOf_toInput env v ec.SignerInfo t hcaps
-  obtain ⟨s0, hs0, hdisc⟩ := discover_spec (toInput env v ec.SignerInfo t)
+  obtain ⟨s0, hs0, hdisc⟩ := discoverG_spec (toInput env v ec.SignerInfo t) (t.pcaps ec.SignerInfo)
   unfold processSignature
   simp only [Id.run]
   simp only [GoLite.forIn_appendIf, GoLite.forIn_appendUnless, forIn_anyReturnC, pure_bind]
@@ -264,13 +349,13 @@ theorem source_processSignature_refines_model_partial (env : Env) (v : Verifier)
   | absent =>
     have h1 := hgp.1 hpa
     have hn : t.name = "" := by rw [ht.name, h1]
-    have hd : discOK (toInput env v ec.SignerInfo t) = true := by simp [discOK, toInput, hpa]
+    have hd : discOKG (toInput env v ec.SignerInfo t) (t.pcaps ec.SignerInfo) = true := by simp [discOKG, toInput, hpa]
     have hp0 : t.pcaps ec.SignerInfo = [] := by simp [Trace.pcaps, hpa]
     simp only [h1, hn, hne, hee, Option.isSome_some, Bool.and_false, Bool.false_eq_true, if_false]
     simp only [apply_ite view]
     repeat' (refine ite_cases (fun _ => ?_) (fun _ => ?_))
     all_goals (
-      simp only [modelView, process, processE, hdisc, hd, if_true, bind, Except.bind]
+      simp only [processEG, hdisc, hd, if_true, bind, Except.bind]
       clear hgp hgm hd hdisc ht hc
       rename_i hlast
       try (have hlf := critFail_isSome _ hlast)
@@ -282,10 +367,10 @@ theorem source_processSignature_refines_model_partial (env : Env) (v : Verifier)
     obtain ⟨h1, h2, h3⟩ := hgp.2.2 (by rw [hpa]; decide) (by rw [hpa]; decide)
     have h3' : ((getVerificationPlugin ec.SignerInfo).2 != some errExtendedAttributeNotExist) = true := by
       simpa [bne_iff_ne] using h3
-    have hd : discOK (toInput env v ec.SignerInfo t) = false := by simp [discOK, toInput, hpa]
+    have hd : discOKG (toInput env v ec.SignerInfo t) (t.pcaps ec.SignerInfo) = false := by simp [discOKG, toInput, hpa]
     simp only [h2, h3', Bool.and_self, if_true]
-    simp only [modelView, process, processE, hdisc, hd, Bool.false_eq_true, if_false, bind, Except.bind]
-    simp [view, GoLite.idPure, St.obs, hs0]
+    simp only [processEG, hdisc, hd, Bool.false_eq_true, if_false, bind, Except.bind]
+    simp [view, GoLite.idPure, obsPair, hs0]
     simpa using h2
 
 /-- the trace of a call: every oracle asked exactly as `processSignature` asks it -/
@@ -322,11 +407,11 @@ theorem source_processSignature_refines_model_no_plugin (env : Env) (v : Verifie
     (hc : Contracts env v)
     (hI : env.verifyIntegrity a.sigBlob a.mt o0 = (some ec, rI)) (hIok : rI.Error = none) (hIty : isAuth rI = false)
     (hres : o0.VerificationResults = [])
-    (hcaps : NormalCaps (verifCaps (traceOf env v a o0 ec rI).md.1))
     (hnp : classifyPlugin ec.SignerInfo ≠ .named) :
     view (processSignature env v a.sigBlob a.mt a.pn a.tis a.tss a.sv a.pc o0) =
-      modelView (toInput env v ec.SignerInfo (traceOf env v a o0 ec rI)) o0.VerificationLevel.Enforcement :=
-  source_processSignature_refines_model_partial env v a o0 ec rI _ hc (traceOf_ok env v a o0 ec rI) hI hIok hIty hres hcaps hnp
+      obsPair (processEG (toInput env v ec.SignerInfo (traceOf env v a o0 ec rI)) o0.VerificationLevel.Enforcement
+        ((traceOf env v a o0 ec rI).pcaps ec.SignerInfo)) :=
+  source_processSignature_refines_model_partial env v a o0 ec rI _ hc (traceOf_ok env v a o0 ec rI) hI hIok hIty hres hnp
 
 /-- TIE (translated source): `processPluginResponse`, for EVERY list of verification capabilities, plugin response and
 outcome: it returns an error exactly when the model's `processResponse` stops, and leaves behind exactly the model's
@@ -387,16 +472,6 @@ end NotationModel.C02.Tie
 /-! #### the plugin-named path, and the whole -/
 namespace NotationModel.C02.Tie
 section ProcessNamed
-
-/-- accepted or not, and the results, of a run of the model's stages -/
-def obsPair (e : Except St St) : Bool × List Result :=
-  match e with
-  | .ok s => (true, s.results)
-  | .error s => (false, s.results)
-
-theorem modelView_eq (i : Input) (enf : Enf) : modelView i enf = obsPair (processE i enf) := by
-  unfold modelView process obsPair
-  cases processE i enf <;> rfl
 
 /-- the plugin response, seen through `view`: the translated `processPluginResponse` on an outcome whose results
 after the first are the model's results gives the model's verdict and results -/
@@ -539,16 +614,15 @@ theorem len_pos {α : Type} (l : List α) : decide (GoLite.len l > 0) = !l.isEmp
     simp only [GoLite.len, List.length_cons, List.isEmpty_cons, Bool.not_false, decide_eq_true_eq]
     omega
 
-theorem toVerify_toInput (env : Env) (v : Verifier) (si : SignerInfo) (t : Trace) (enf : GoLite.Map String String)
-    (hcapsOf : capsOf (toInput env v si t) = t.pcaps si) :
-    toVerify (toInput env v si t) enf = t.toVerify si enf := by
+theorem toVerifyG_eq (t : Trace) (si : SignerInfo) (enf : GoLite.Map String String) :
+    toVerifyG (t.pcaps si) enf = t.toVerify si enf := by
   have haS : trustpolicy.ActionSkip = Facts.actionSkip := by decide
-  unfold toVerify Trace.toVerify revSkippedBy revSkipped
-  rw [hcapsOf, mapGet_eq_enfGet, typeRev_eq, haS]
+  unfold toVerifyG Trace.toVerify revSkippedBy revSkipped
+  rw [mapGet_eq_enfGet, typeRev_eq, haS]
   rfl
 
 set_option hygiene false in
-macro "leaf_n1" : tactic => `(tactic| simp_all [-List.any_eq_true, -List.any_eq_false, List.any_map, hcomp, contains_default, contains_nil, typeRev_eq, htE, htT, haS, actEnforce_eq, GoLite.setAt, GoLite.len, failAuthenticity, trust_ne1, trust_ne2, trust_ne3, rev_ne1, rev_ne2, authStage, expiryStage, timestampStage, revocationStage, pluginStage, hTVm, revSkippedBy, St.push,
+macro "leaf_n1" : tactic => `(tactic| simp_all [-List.any_eq_true, -List.any_eq_false, List.any_map, hcomp, contains_default, contains_nil, typeRev_eq, htE, htT, haS, actEnforce_eq, GoLite.setAt, GoLite.len, failAuthenticity, trust_ne1, trust_ne2, trust_ne3, rev_ne1, rev_ne2, authStageG, expiryStage, timestampStage, revocationStageG, pluginStageG, hTVm, revSkippedBy, St.push,
         isCriticalFailure_eq, resOf, trust_failed, trust_failed2, revocation_failed, typeAuth_eq, mapGet_eq_enfGet, Trace.rA, GoLite.contains, capId_eq.symm, capRev_eq.symm])
 set_option hygiene false in
 macro "leaf_n2" : tactic => `(tactic| simp_all [-List.any_eq_true, -List.any_eq_false, List.any_map, hcomp, view, obsPair, GoLite.idPure, St.obs, resOf])
@@ -559,14 +633,12 @@ theorem source_processSignature_refines_model_named (env : Env) (v : Verifier) (
     (hc : Contracts env v) (ht : TraceOK env v a o0 ec rI t)
     (hI : env.verifyIntegrity a.sigBlob a.mt o0 = (some ec, rI)) (hIok : rI.Error = none) (hIty : isAuth rI = false)
     (hres : o0.VerificationResults = [])
-    (hcaps : NormalCaps (verifCaps t.md.1))
     (hpa : classifyPlugin ec.SignerInfo = .named) :
     view (processSignature env v a.sigBlob a.mt a.pn a.tis a.tss a.sv a.pc o0) =
-      modelView (toInput env v ec.SignerInfo t) o0.VerificationLevel.Enforcement := by
+      obsPair (processEG (toInput env v ec.SignerInfo t) o0.VerificationLevel.Enforcement (t.pcaps ec.SignerInfo)) := by
   have hgp := source_getVerificationPlugin_refines_model ec.SignerInfo
   have hgm := source_getVerificationPluginMinVersion_refines_model env.isValidSemver ec.SignerInfo
-  have hcapsOf := capsOf_toInput env v ec.SignerInfo t hcaps
-  obtain ⟨s0, hs0, hdisc⟩ := discover_spec (toInput env v ec.SignerInfo t)
+  obtain ⟨s0, hs0, hdisc⟩ := discoverG_spec (toInput env v ec.SignerInfo t) (t.pcaps ec.SignerInfo)
   unfold processSignature
   simp only [Id.run]
   simp only [GoLite.forIn_appendIf, GoLite.forIn_appendUnless, forIn_anyReturnC, pure_bind]
@@ -592,12 +664,12 @@ theorem source_processSignature_refines_model_named (env : Env) (v : Verifier) (
         exact hb (by decide)
   simp only [h1, hname, Option.isSome_none, Bool.false_and, Bool.false_eq_true, if_false, if_true]
   -- the exits of plugin discovery leave no result behind
-  have hexit : ∀ (e : Option GoLite.Err), e.isSome = true → discOK (toInput env v ec.SignerInfo t) = false →
+  have hexit : ∀ (e : Option GoLite.Err), e.isSome = true → discOKG (toInput env v ec.SignerInfo t) (t.pcaps ec.SignerInfo) = false →
       view (pure (e, ({ EnvelopeContent := some ec, VerificationLevel := o0.VerificationLevel, VerificationResults := [rI] } : Outcome)) : Id _) =
-        modelView (toInput env v ec.SignerInfo t) o0.VerificationLevel.Enforcement := by
+        obsPair (processEG (toInput env v ec.SignerInfo t) o0.VerificationLevel.Enforcement (t.pcaps ec.SignerInfo)) := by
     intro e he hk
-    simp only [modelView, process, processE, hdisc, hk, Bool.false_eq_true, if_false, bind, Except.bind]
-    simp [view, GoLite.idPure, St.obs, hs0]
+    simp only [processEG, hdisc, hk, Bool.false_eq_true, if_false, bind, Except.bind]
+    simp [view, GoLite.idPure, obsPair, hs0]
     cases e <;> simp_all
   cases hmv : classifyMinVer env.isValidSemver ec.SignerInfo with
   | notCritical | notString | blank | invalidSemver =>
@@ -605,7 +677,7 @@ theorem source_processSignature_refines_model_named (env : Env) (v : Verifier) (
     have g3' : ((getVerificationPluginMinVersion env.isValidSemver ec.SignerInfo).2 != some errExtendedAttributeNotExist) = true := by
       simpa [bne_iff_ne] using g3
     simp only [g2, g3', Bool.and_self, if_true]
-    exact hexit _ rfl (by simp [discOK, toInput, hpa, hmv])
+    exact hexit _ rfl (by simp [discOKG, toInput, hpa, hmv])
   | absent | valid =>
     have hd1 : ((getVerificationPluginMinVersion env.isValidSemver ec.SignerInfo).2.isSome &&
         (getVerificationPluginMinVersion env.isValidSemver ec.SignerInfo).2 != some errExtendedAttributeNotExist) = false := by
@@ -615,19 +687,19 @@ theorem source_processSignature_refines_model_named (env : Env) (v : Verifier) (
     simp only [hd1, Bool.false_eq_true, if_false]
     by_cases hm : v.pluginManager.isNone = true
     · simp only [hm, if_true]
-      exact hexit _ rfl (by simp [discOK, toInput, hpa, hmv, hm])
+      exact hexit _ rfl (by simp [discOKG, toInput, hpa, hmv, hm])
     simp only [hm, Bool.false_eq_true, if_false]
     by_cases hg : t.got.2.isSome = true
     · simp only [hg, if_true]
-      exact hexit _ rfl (by simp [discOK, toInput, hpa, hmv, hm, hg])
+      exact hexit _ rfl (by simp [discOKG, toInput, hpa, hmv, hm, hg])
     simp only [hg, Bool.false_eq_true, if_false]
     by_cases hmd : t.md.2.isSome = true
     · simp only [hmd, if_true]
-      exact hexit _ hmd (by simp [discOK, toInput, hpa, hmv, hm, hg, hmd])
+      exact hexit _ hmd (by simp [discOKG, toInput, hpa, hmv, hm, hg, hmd])
     simp only [hmd, Bool.false_eq_true, if_false]
     by_cases hvs : env.isValidSemver t.md.1.Version = false
     · simp only [hvs, Bool.not_false, if_true]
-      exact hexit _ rfl (by simp [discOK, toInput, hpa, hmv, hm, hg, hmd, hvs])
+      exact hexit _ rfl (by simp [discOKG, toInput, hpa, hmv, hm, hg, hmd, hvs])
     have hvs' : env.isValidSemver t.md.1.Version = true := by simpa using hvs
     simp only [hvs', Bool.not_true, Bool.false_eq_true, if_false]
     by_cases hrq : env.isRequiredVerificationPluginVer t.md.1.Version t.minVer = false
@@ -641,7 +713,7 @@ theorem source_processSignature_refines_model_named (env : Env) (v : Verifier) (
           rw [h0] at hrq
           cases hrq
         · exact h
-      exact hexit _ rfl (by simp [discOK, toInput, hpa, hval, hm, hg, hmd, hvs', hrq])
+      exact hexit _ rfl (by simp [discOKG, toInput, hpa, hval, hm, hg, hmd, hvs', hrq])
     have hrq' : env.isRequiredVerificationPluginVer t.md.1.Version t.minVer = true := by simpa using hrq
     simp only [hrq', Bool.not_true, Bool.false_eq_true, if_false]
     have hpcs : ((default : List String) ++ List.filter (fun a => a == CapabilityRevocationCheckVerifier || a == CapabilityTrustedIdentityVerifier)
@@ -652,17 +724,17 @@ theorem source_processSignature_refines_model_named (env : Env) (v : Verifier) (
     by_cases hemp : t.pcaps ec.SignerInfo = []
     · have : (GoLite.len (t.pcaps ec.SignerInfo) == 0) = true := by rw [hemp]; rfl
       simp only [this, if_true]
-      exact hexit _ rfl (by simp [discOK, hcapsOf, hemp, hpa])
+      exact hexit _ rfl (by simp [discOKG, hemp, hpa])
     have hlen : (GoLite.len (t.pcaps ec.SignerInfo) == 0) = false := by
       cases hq : t.pcaps ec.SignerInfo with
       | nil => exact absurd hq hemp
       | cons x l => simp [GoLite.len]; omega
     simp only [hlen, Bool.false_eq_true, if_false]
-    have hd : discOK (toInput env v ec.SignerInfo t) = true := by
+    have hd : discOKG (toInput env v ec.SignerInfo t) (t.pcaps ec.SignerInfo) = true := by
       have hne : (t.pcaps ec.SignerInfo).isEmpty = false := by simpa using hemp
       have hmvv : classifyMinVer env.isValidSemver ec.SignerInfo = .absent ∨ classifyMinVer env.isValidSemver ec.SignerInfo = .valid := by
         rw [hmv]; simp
-      rcases hmvv with h | h <;> simp [discOK, hcapsOf, hne, hpa, h, hm, hg, hmd, hvs', hrq']
+      rcases hmvv with h | h <;> simp [discOKG, hne, hpa, h, hm, hg, hmd, hvs', hrq']
     -- the plugin the manager hands out
     have hipS : t.got.1.isSome = true := by
       cases hpm : v.pluginManager with
@@ -680,7 +752,7 @@ theorem source_processSignature_refines_model_named (env : Env) (v : Verifier) (
       simp only [Trace.toVerify, revSkipped]
       rfl
     simp only [hTV, ← ht.ex, len_pos]
-    have hTVm := toVerify_toInput env v ec.SignerInfo t o0.VerificationLevel.Enforcement hcapsOf
+    have hTVm := toVerifyG_eq t ec.SignerInfo o0.VerificationLevel.Enforcement
     have hA1 := fun cs o => (hc.auth cs o).1
     have hA2 := fun cs o => (hc.auth cs o).2
     have hE1 := fun o => (hc.expiry o).1
@@ -702,8 +774,7 @@ theorem source_processSignature_refines_model_named (env : Env) (v : Verifier) (
     simp only [ite_band]
     repeat' (refine ite_cases (fun _ => ?_) (fun _ => ?_))
     all_goals (
-      rw [modelView_eq]
-      simp only [processE, hdisc, hd, if_true, bind, Except.bind]
+      simp only [processEG, hdisc, hd, if_true, bind, Except.bind]
       clear hgp hgm hd hdisc hexit ht hc hd1 hpcs hTV hlen
       rename_i hlast
       try (have hlf := critFail_isSome _ hlast)
@@ -721,14 +792,28 @@ theorem source_processSignature_refines_model_named (env : Env) (v : Verifier) (
          · simpa [GoLite.deref] using ext_any_eq ec.SignerInfo t.ex.1.ProcessedAttributes)
       | leaf_n2)
 
-/-- TIE (translated source): `processSignature` AS A WHOLE. For EVERY verifier, environment of callees, argument list,
-level and signature that passed integrity: the translated function is accepted exactly when the model `process`
-accepts the scenario the oracles' answers amount to (`toInput` of the trace, each oracle asked with the arguments the Go
-code hands it at that point), and records exactly the model's results after the integrity result - whether or not the
-signature names a verification plugin (discovery, capability filter, native checks the plugin does not own, hand-over to
-`processPluginResponse`, the update of the authenticity result through the pointer kept in the outcome).
-Assumed: `Contracts` (facts about callees), an outcome that starts empty, and that the plugin lists each verification
-capability at most once, trusted identity first (`NormalCaps`: the shapes the model's two capability flags express). -/
+/-- TIE (translated source): `processSignature` AS A WHOLE, for EVERY list of capabilities a plugin may declare.
+For EVERY verifier, environment of callees, argument list, level and signature that passed integrity: the translated
+function is accepted exactly when the model's stages - with the plugin's verification capabilities taken as the LIST
+the metadata gives (`processEG`, which IS the model on the lists its flags express: `processEG_capsOf`) - accept the
+scenario the oracles' answers amount to (`toInput` of the trace, each oracle asked with the arguments the Go code
+hands it at that point), and records exactly the model's results after the integrity result - whether or not the
+signature names a verification plugin (discovery, capability filter, native checks the plugin does not own, hand-over
+to `processPluginResponse`, the update of the authenticity result through the pointer kept in the outcome).
+Assumed: `Contracts` (facts about callees) and an outcome that starts empty. -/
+theorem source_processSignature_refines_model_anycaps (env : Env) (v : Verifier) (a : Args) (o0 : Outcome)
+    (ec : EnvelopeContent) (rI : ValidationResult) (t : Trace)
+    (hc : Contracts env v) (ht : TraceOK env v a o0 ec rI t)
+    (hI : env.verifyIntegrity a.sigBlob a.mt o0 = (some ec, rI)) (hIok : rI.Error = none) (hIty : isAuth rI = false)
+    (hres : o0.VerificationResults = []) :
+    view (processSignature env v a.sigBlob a.mt a.pn a.tis a.tss a.sv a.pc o0) =
+      obsPair (processEG (toInput env v ec.SignerInfo t) o0.VerificationLevel.Enforcement (t.pcaps ec.SignerInfo)) := by
+  by_cases hpa : classifyPlugin ec.SignerInfo = .named
+  · exact source_processSignature_refines_model_named env v a o0 ec rI t hc ht hI hIok hIty hres hpa
+  · exact source_processSignature_refines_model_partial env v a o0 ec rI t hc ht hI hIok hIty hres hpa
+
+/-- the same against the model `process` itself, for plugins that list each verification capability at most once,
+trusted identity first (`NormalCaps`: the shapes the model's two capability flags express) -/
 theorem source_processSignature_refines_model (env : Env) (v : Verifier) (a : Args) (o0 : Outcome)
     (ec : EnvelopeContent) (rI : ValidationResult) (t : Trace)
     (hc : Contracts env v) (ht : TraceOK env v a o0 ec rI t)
@@ -737,20 +822,19 @@ theorem source_processSignature_refines_model (env : Env) (v : Verifier) (a : Ar
     (hcaps : NormalCaps (verifCaps t.md.1)) :
     view (processSignature env v a.sigBlob a.mt a.pn a.tis a.tss a.sv a.pc o0) =
       modelView (toInput env v ec.SignerInfo t) o0.VerificationLevel.Enforcement := by
-  by_cases hpa : classifyPlugin ec.SignerInfo = .named
-  · exact source_processSignature_refines_model_named env v a o0 ec rI t hc ht hI hIok hIty hres hcaps hpa
-  · exact source_processSignature_refines_model_partial env v a o0 ec rI t hc ht hI hIok hIty hres hcaps hpa
+  rw [modelView_eq, ← processEG_capsOf, capsOf_toInput env v ec.SignerInfo t hcaps]
+  exact source_processSignature_refines_model_anycaps env v a o0 ec rI t hc ht hI hIok hIty hres
 
 /-- the same in closed form (the trace is the one every call has) -/
 theorem source_processSignature_refines_model_closed (env : Env) (v : Verifier) (a : Args) (o0 : Outcome)
     (ec : EnvelopeContent) (rI : ValidationResult)
     (hc : Contracts env v)
     (hI : env.verifyIntegrity a.sigBlob a.mt o0 = (some ec, rI)) (hIok : rI.Error = none) (hIty : isAuth rI = false)
-    (hres : o0.VerificationResults = [])
-    (hcaps : NormalCaps (verifCaps (traceOf env v a o0 ec rI).md.1)) :
+    (hres : o0.VerificationResults = []) :
     view (processSignature env v a.sigBlob a.mt a.pn a.tis a.tss a.sv a.pc o0) =
-      modelView (toInput env v ec.SignerInfo (traceOf env v a o0 ec rI)) o0.VerificationLevel.Enforcement :=
-  source_processSignature_refines_model env v a o0 ec rI _ hc (traceOf_ok env v a o0 ec rI) hI hIok hIty hres hcaps
+      obsPair (processEG (toInput env v ec.SignerInfo (traceOf env v a o0 ec rI)) o0.VerificationLevel.Enforcement
+        ((traceOf env v a o0 ec rI).pcaps ec.SignerInfo)) :=
+  source_processSignature_refines_model_anycaps env v a o0 ec rI _ hc (traceOf_ok env v a o0 ec rI) hI hIok hIty hres
 
 /-! non-vacuity of the plugin-named path: the translated function runs a plugin that owns the identity check -/
 section ExamplesNamed
